@@ -455,4 +455,8 @@ def check(ctx, rep):
     rule_ai_config(ctx, rep)
     rule_report_try_minimal(ctx, rep)
     rule_arg_converters(ctx, rep)
+    from .c12 import rule_every_input_read
+
+    # the duplicate-tool status (1) depends on every run of every SARIF input being looked at: a handler that ends the reading of a file early hides a duplicate
+    rule_every_input_read(ctx, rep)
     rep.not_covered += ["which argument vectors argparse itself rejects", "exceptions escaping run() (traceback, status 1 from the interpreter)"]
